@@ -57,10 +57,9 @@ GENERATION_BUDGET_S = 8.0
 
 
 def _phase(p):
-    from .. import worker
-
-    if worker._real_stdout is not None:
-        worker.phase(p)
+    cb = SIM.phase_cb
+    if cb is not None:
+        cb(p)
 
 
 class KernelSet:
